@@ -246,6 +246,6 @@ def gen_lines(n_snap, n_jit, n_sample, seed):
         for i in range(0, n, per):
             jobs.append((kind, seed * 31 + tid + i, tid + i, min(per, n - i)))
         tid += n
-    with mp.get_context("fork").Pool(common.NCPU) as pool:
+    with common.pool(common.NCPU) as pool:
         out = pool.map(_chunk, jobs)
     return [x for ch in out for x in ch]
